@@ -451,27 +451,34 @@ impl<'a, C: Crypto + 'a> CaseInitiator<'a, C> {
         })?;
 
         // Step 7: Build and send Sigma3
+        //
+        // The payload is encrypted exactly once: the Sigma3 key is derived from the
+        // transcript hash over Sigma1 and Sigma2, and the transcript is extended with
+        // Sigma3 itself right after it was built for the first time. Encrypting again
+        // when MRP asks for a retransmission would use a key derived from the extended
+        // transcript, i.e. produce a different message which the responder cannot decrypt.
+        let mut tbe3 = alloc!([0u8; CASE_LARGE_BUF_SIZE]); // TODO LARGE BUFFER
+        let tbe3_len = exchange.with_state(|state| {
+            let fabric = state.fabrics.fabric(fab_idx)?;
+
+            initiator
+                .casep
+                .sigma3_encrypt(crypto, fabric, signature.reference(), &mut tbe3[..])
+        })?;
+
         let mut tt_updated = false;
         exchange
-            .send_with(|exchange_ref, tw| {
-                exchange_ref.with_state(|state| {
-                    let fabric = state.fabrics.fabric(fab_idx)?;
+            .send_with(|_, tw| {
+                tw.start_struct(&TLVTag::Anonymous)?;
+                tw.str(&TLVTag::Context(1), &tbe3[..tbe3_len])?;
+                tw.end_container()?;
 
-                    tw.start_struct(&TLVTag::Anonymous)?;
-                    tw.str_cb(&TLVTag::Context(1), |buf| {
-                        initiator
-                            .casep
-                            .sigma3_encrypt(crypto, fabric, signature.reference(), buf)
-                    })?;
-                    tw.end_container()?;
+                if !tt_updated {
+                    initiator.casep.update_tt(tw.as_slice())?;
+                    tt_updated = true;
+                }
 
-                    if !tt_updated {
-                        initiator.casep.update_tt(tw.as_slice())?;
-                        tt_updated = true;
-                    }
-
-                    Ok(Some(OpCode::CASESigma3.into()))
-                })
+                Ok(Some(OpCode::CASESigma3.into()))
             })
             .await?;
 
